@@ -72,7 +72,7 @@ func genC17(seed int64, tier string) []caseOut {
 	n := 5
 	charChanges := 14
 	if tier == "thorough" {
-		n, charChanges = 120, 100000
+		n, charChanges = 48, 120
 	}
 	r := rand.New(rand.NewSource(seed))
 	var out []caseOut
